@@ -343,6 +343,8 @@ def main():
     lock_info = None if dev else regenerate_lock_graph(c)
     if not dev:
         c.prove()
+    if c.proof_broken and 'LockGraph' in (c.proof_broken[0] + c.proof_broken[1]):
+        lock_failure_search(c)
     build_driver()
     build_harness(['h5ops'])
     lines, metas = [], []
@@ -480,6 +482,39 @@ def main():
                           'noted, not flagged: Load/WriteSlice drop the error of Read/WriteSubset (an out-of-extent WriteSlice returns nil and writes nothing); '
                           'Create ignores fillValue (zero fill); Create(compress=true) fails after creating the intermediate groups',
                           'concurrency run (thorough) is testing: 16 goroutines, -race, fake overlap detector'])
+
+
+def lock_failure_search(c):
+    """The lock-discipline obligation (check Gen.LockGraph.graph = true) broke: name the entry points the
+    checker rejects, then look for a concrete failing run with the run-time overlap detector."""
+    diag = os.path.join(OUT, 'C08', 'lockdiag.v')
+    open(diag, 'w').write(
+        'From Coq Require Import ZArith List Bool String.\nFrom OW Require Import IO.LockCheck Gen.LockGraph.\nImport ListNotations.\n'
+        'Definition t := ct_iter lock_rounds graph (ct_init graph).\n'
+        'Eval vm_compute in (ct_valid graph t, map (fun fn => (fn_name fn, is_writer graph fn)) (filter (fun fn => fn_entry fn && '
+        'negb (oheld_eqb (ct_fun t (fn_id fn) HU (is_writer graph fn)) (Some HU))) graph)).\n')
+    rejected = ''
+    try:
+        with _Lock():
+            sh('timeout 600 coqc -Q . OW Gen/LockGraph.v', cwd=COQ)
+            rejected = sh('timeout 600 coqc -Q %s OW -o %s %s' % (COQ, os.path.join(OUT, 'C08', 'lockdiag.vo'), diag), cwd=COQ)
+    except BuildError as e:
+        rejected = 'diagnostic failed: ' + e.output[-500:]
+    names = re.findall(r'"([^"]+)"%string', rejected)
+    log('lock checker rejects entry points:', names[:12])
+    try:
+        build_harness(['h5ops'])
+        p = subprocess.run([os.path.join(HARNESS, 'bin', 'h5ops'), '-conc', '16', '-rounds', '60'], stdout=subprocess.PIPE,
+                           stderr=subprocess.STDOUT, text=True, env=GOENV, timeout=600)
+        last = p.stdout.strip().split('\n')[-1] if p.stdout.strip() else ''
+        if p.returncode != 0:
+            c.violation('lock_discipline_run.json', {'kind': 'lock discipline violated at run time (fake HDF5 overlap detector / torn reads)',
+                                                      'rejected_entry_points': names, 'run': 'harness/bin/h5ops -conc 16 -rounds 60',
+                                                      'output': p.stdout[-3000:], 'summary': last})
+            return
+    except (BuildError, subprocess.TimeoutExpired) as e:
+        log('concurrency search failed to run:', e)
+    c.proof_broken = (c.proof_broken[0] + ' ; lock checker rejects: ' + ', '.join(names[:20]), c.proof_broken[1])
 
 
 def regenerate_lock_graph(c):
